@@ -5611,7 +5611,10 @@ def merge_parts(parts, reassign="voice"):
     # find the maximum number of voices for each part (voice numbers start from 1)
     maximum_voices = [max(unique_voice, default=1) for unique_voice in unique_voices]
     # find the maximum number of staves for each part
-    maximum_staves = [max(unique_staff, default=1) for unique_staff in unique_staves]
+    # (a missing staff is written as 0 in the note array and counts as staff 1)
+    maximum_staves = [
+        max(1, max(unique_staff, default=1)) for unique_staff in unique_staves
+    ]
 
     if reassign in ["staff", "auto"]:
         el_to_discard = (
